@@ -152,8 +152,32 @@ def gen_structured(rng, tier):
     return make_case(rng, F, P, T, D, pats, old, new, kind, via, values, dtype)
 
 
+def _sensitive_counts():
+    """(F, old, new) with F * new / old an exact k + 1/2 on which a re-associated float expression (F * (new / old),
+    (F / old) * new, F / (old / new)) rounds to a different integer than round(F * new / old): the inputs that tell the
+    coded expression from its plausible rewrites (about 1% of all exact ties)"""
+    rates = [5, 6, 10, 12, 15, 20, 24, 25, 30, 48, 50, 60]
+    out = []
+    for old in rates:
+        for new in rates:
+            if new == old:
+                continue
+            for F in range(2, 201):
+                if (2 * F * new) % old == 0 and ((2 * F * new) // old) % 2 == 1:
+                    ref = round(F * new / old)
+                    if any(round(v) != ref for v in (F * (new / old), (F / old) * new, F / (old / new))):
+                        out.append((F, float(old), float(new)))
+    return out
+
+
+SENSITIVE_COUNTS = _sensitive_counts()
+
+
 def gen_count(rng):
     """one fully observed track; frame counts incl. exact .5 quotients and large counts"""
+    if rng.random() < 0.3:
+        F, old, new = rng.choice(SENSITIVE_COUNTS)
+        return make_case(rng, F, 1, 1, 1, [[[1] * F]], old, new, "linear", "body", "affine")
     F = rng.choice([2, 3, 5, 7, 9, 11, 25, 50, 99, 100, 101, 250, 333, 1000])
     old = rng.choice(OLD_RATES + [2.0, 4.0, 8.0, 20.0])
     r = rng.random()
